@@ -44,6 +44,8 @@ class RandAgent(Agent):
                       ttl=self.prng.choice([None, 1, 2, 5]))
             out.append(o)
             self.mine.append(o)
+        if out:
+            EV.append(("produced", self.agent_id, markets[0].get_time(), len(out)))
         return out
 
     def submitted_order(self, log):
